@@ -604,60 +604,98 @@ def _enc_rows(rows):
     return '|'.join((','.join('%d:%s' % (c, enc_rat(v)) for c, v in r) if r else '-') for r in rows)
 
 
+def _num(v):
+    """exact value of a stored entry (bool -> 0 / 1)"""
+    from fractions import Fraction
+    if isinstance(v, (bool, np.bool_)):
+        return Fraction(int(v))
+    if isinstance(v, (int, np.integer)):
+        return Fraction(int(v))
+    return Fraction(float(v))
+
+
 def _csr_rows(m):
-    return [[(int(m.indices[p]), float(m.data[p])) for p in range(m.indptr[i], m.indptr[i + 1])] for i in range(m.shape[0])]
+    return [[(int(m.indices[p]), _num(m.data[p])) for p in range(m.indptr[i], m.indptr[i + 1])] for i in range(m.shape[0])]
+
+
+CONTAINER_DTYPES = {'float64': ('float', [1, 1, 2, 3, -1, 0.5, 0.25]), 'float32': ('float', [1, 2, 3, -1, 0.5]), 'bool': ('bool', [1]),
+                    'int8': ('int8', [1, 2, 100, -100, 127, -128, 60]), 'uint8': ('uint8', [1, 2, 100, 200, 255]),
+                    'int32': ('int32', [1, -3, 2 ** 31 - 1, -2 ** 31, 2 ** 30]), 'int64': ('int64', [1, -3, 2 ** 62, -2 ** 62, 2 ** 63 - 1])}
+
+
+def _make_container(rng, fmt, dtype, nr, nc, pool):
+    """a container with duplicate entries / unsorted indices where the format can hold them; returns (object, payload)"""
+    npd = np.dtype(dtype)
+    es = [(rng.randrange(nr), rng.randrange(nc), rng.choice(pool)) for _ in range(rng.randint(0, nr * nc + 2))]
+    if es and rng.random() < 0.4:       # a duplicate of an existing position (sums, wraps, or cancels to a stored zero)
+        r, c, v = rng.choice(es)
+        es.append((r, c, -v if (dtype.startswith(('float', 'int')) and rng.random() < 0.4 and v != -2 ** 63 and v != -2 ** 31 and v != -128) else rng.choice(pool)))
+    vals = np.array([v for _, _, v in es], dtype=npd) if es else np.zeros(0, dtype=npd)
+    if fmt == 'coo':
+        obj = sparse.coo_matrix((vals, (np.array([r for r, _, _ in es], dtype=int), np.array([c for _, c, _ in es], dtype=int))),
+                                shape=(nr, nc)) if es else sparse.coo_matrix((nr, nc), dtype=npd)
+        payload = ','.join('%d:%d:%s' % (r, c, enc_rat(_num(v))) for (r, c, _), v in zip(es, vals)) if es else '-'
+        return obj, payload
+    if fmt == 'dense':
+        d = np.zeros((nr, nc), dtype=npd)
+        for (r, c, _), v in zip(es, vals):
+            d[r, c] = v
+        return d, '|'.join(','.join(enc_rat(_num(x)) for x in row) for row in d)
+    if fmt in ('csr', 'csc'):
+        # stored arrays written directly: duplicates and any order of the indices are kept by scipy
+        major = nr if fmt == 'csr' else nc
+        lines = [[] for _ in range(major)]
+        for (r, c, _), v in zip(es, vals):
+            lines[r if fmt == 'csr' else c].append((c if fmt == 'csr' else r, v))
+        indptr = np.cumsum([0] + [len(x) for x in lines])
+        indices = np.array([k for x in lines for k, _ in x], dtype=np.int32)
+        data = np.array([v for x in lines for _, v in x], dtype=npd) if es else np.zeros(0, dtype=npd)
+        cls = sparse.csr_matrix if fmt == 'csr' else sparse.csc_matrix
+        obj = cls((data, indices, indptr), shape=(nr, nc))
+        return obj, _enc_rows([[(k, _num(v)) for k, v in x] for x in lines])
+    # lil: one entry per position (the last one wins), in insertion = sorted order
+    d = {}
+    for (r, c, _), v in zip(es, vals):
+        d[(r, c)] = v
+    obj = sparse.lil_matrix((nr, nc), dtype=npd)
+    for (r, c), v in d.items():
+        if v != 0:
+            obj[r, c] = v
+    return obj, _enc_rows([[(int(c), _num(v)) for c, v in zip(obj.rows[i], obj.data[i])] for i in range(nr)])
 
 
 def container_cases(ctx, count):
+    """the Lean model of check_format = sparse.csr_matrix(x), dtype included, against scipy: the CSR rows as stored
+    (order, duplicates) and the canonical form (duplicates summed in the dtype, sorted, zeros dropped), both exact"""
     from sknetwork.utils.check import check_format
     rng = ctx.rng
     cases = []
     for t in range(count):
         nr, nc = rng.randint(1, 5), rng.randint(1, 5)
-        pool = [1, 1, 2, 3, -1, 0.5, True]
         fmt = rng.choice(['csr', 'csc', 'coo', 'lil', 'dense'])
-        es = [(rng.randrange(nr), rng.randrange(nc), rng.choice(pool)) for _ in range(rng.randint(0, nr * nc))]
-        if fmt == 'coo':
-            # duplicates allowed (they add); sometimes cancelling to an explicit zero
-            if es and rng.random() < 0.3:
-                r, c, v = es[0]
-                es.append((r, c, -v))
-            obj = sparse.coo_matrix((np.array([float(v) for _, _, v in es]), (np.array([r for r, _, _ in es], dtype=int), np.array([c for _, c, _ in es], dtype=int))), shape=(nr, nc)) if es else sparse.coo_matrix((nr, nc))
-            payload = ','.join('%d:%d:%s' % (r, c, enc_rat(float(v))) for r, c, v in es) if es else '-'
-        elif fmt == 'dense':
-            d = np.zeros((nr, nc))
-            for r, c, v in es:
-                d[r, c] = float(v)
-            obj = d
-            payload = '|'.join(','.join(enc_rat(x) for x in row) for row in d.tolist())
-        else:
-            d = {}
-            for r, c, v in es:
-                d[(r, c)] = float(v)
-            base = sparse.csr_matrix((nr, nc))
-            if d:
-                base = sparse.csr_matrix((list(d.values()), ([k[0] for k in d], [k[1] for k in d])), shape=(nr, nc))
-            if fmt == 'csr':
-                obj = graphs.unsorted_copy(base, rng) if rng.random() < 0.6 else base
-                payload = _enc_rows(_csr_rows(obj))
-            elif fmt == 'lil':
-                obj = base.tolil()
-                payload = _enc_rows([[(int(c), float(v)) for c, v in zip(obj.rows[i], obj.data[i])] for i in range(nr)])
-            else:
-                obj = base.tocsc()
-                payload = _enc_rows([[(int(obj.indices[p]), float(obj.data[p])) for p in range(obj.indptr[j], obj.indptr[j + 1])] for j in range(nc)])
+        dtype = rng.choice(sorted(CONTAINER_DTYPES))
+        tok, pool = CONTAINER_DTYPES[dtype]
+        obj, payload = _make_container(rng, fmt, dtype, nr, nc, pool)
 
-        def f():
+        def stored(obj=obj):
+            return 'ok ' + _enc_rows(_csr_rows(check_format(obj, allow_empty=True)))
+
+        def canonical(obj=obj):
             m = check_format(obj, allow_empty=True).copy()
             m.sum_duplicates()
             m.sort_indices()
             m.eliminate_zeros()
             return 'ok ' + _enc_rows(_csr_rows(m))
-        impl = call(f)
-        run = 'c01.canon %s %d %d %s' % (fmt, nr, nc, payload)
-        cases.append(Case(('canon', fmt, nr, nc, payload), {'entry': 'check_format', 'format': fmt}, run, impl, None, bool(es),
-                          {'f': 'check_format', 'line': run}))
+        for cmd, f in (('c01.tocsr', stored), ('c01.canon', canonical)):
+            with warnings.catch_warnings():
+                warnings.simplefilter('ignore')
+                impl = call(f)
+            run = '%s %s %s %d %d %s' % (cmd, tok, fmt, nr, nc, payload)
+            nontrivial = obj.nnz > 0 if sparse.issparse(obj) else bool(np.any(obj))
+            cases.append(Case((cmd, dtype, fmt, nr, nc, payload), {'entry': 'check_format', 'format': fmt, 'dtype': dtype, 'line': cmd},
+                              run, impl, None, nontrivial, {'f': 'check_format', 'line': run, 'impl': impl, 'dtype': dtype}))
         ctx.count('container:' + fmt)
+        ctx.count('container-dtype:' + dtype)
     return cases
 
 
